@@ -1,5 +1,7 @@
 import UtilModel.Broadcast.Proofs
 import UtilModel.Broadcast.Monitors
+import UtilModel.Broadcast.SimProbe
+import UtilModel.Broadcast.SimWait
 /-!
 # broadcast.Broadcast — property theorems (C03)
 
@@ -200,6 +202,36 @@ theorem quiesce_pending (s s' : St) (B : List Nat) (hs : step s (.quiesce B) = s
     s' = s ∧ quiescent s = true ∧ B = pendingIds s := by
   simp only [step] at hs; split at hs <;> simp at hs
   rename_i hc; exact ⟨hs.symm, hc.1, hc.2⟩
+
+/-! ## observable form: every trace of the model is accepted by the monitors -/
+
+/-- **C03 (observable form, handle generations).** Every observable trace of the model is accepted
+by `monProbe`: no probe ever finds a handle closed that must still be open, or open although a
+broadcast certainly followed it. -/
+theorem C03_probe_obs (es : List Ev) (s : St) (h : model.run model.init es = some s) :
+    monProbe.accepts (es.filterMap model.obs) = true :=
+  monitor_accepts_of_simulation model monProbe RelP relP_init
+    (fun s e s' ms hR hs => by
+      have h := probe_sim_step s e s' ms hR hs
+      cases e <;> exact h) es s h
+
+/-- **C03 (observable form, return values and quiescence).** Every observable trace of the model is
+accepted by `monWait`. -/
+theorem C03_wait_obs (es : List Ev) (s : St) (h : model.run model.init es = some s) :
+    monWait.accepts (es.filterMap model.obs) = true :=
+  monitor_accepts_of_simulation model monWait RelW relW_init
+    (fun s e s' ms hR hs => by
+      have h := wait_sim_step s e s' ms hR hs
+      cases e <;> exact h) es s h
+
+/-- **C03 (observable form).** Every observable trace of the Broadcast model — every number of
+waiters and broadcasters, every interleaving — is accepted by the monitor `monC03` that the driver
+also evaluates on histories recorded from the real code. With `accepts_sound`: every implementation
+history the model accepts satisfies C03 in its observable form. -/
+theorem C03_obs (es : List Ev) (s : St) (h : model.run model.init es = some s) :
+    monC03.accepts (es.filterMap model.obs) = true := by
+  unfold monC03
+  rw [ObsMonitor.prod_accepts, C03_probe_obs es s h, C03_wait_obs es s h]; rfl
 
 /-! ## the model can do something -/
 
